@@ -3,6 +3,7 @@
 package connectconformance
 
 import (
+	"google.golang.org/protobuf/types/known/anypb"
 	"fmt"
 	"sort"
 	"strings"
@@ -636,6 +637,144 @@ func TestVerifC08Concurrent(t *testing.T) {
 				}
 			}
 			return []string{fmt.Sprintf("matching-names:%d", hits)}, hits > 0 && hits < len(c.Names)
+		},
+	})
+}
+
+// ---- executed runs: what is actually run is what the patterns select, also for the permutations of the gRPC peers ----
+
+type vfC08ExecCase struct {
+	Tests []string `json:"tests"`
+	Run   []string `json:"run"`
+	Skip  []string `json:"skip"`
+}
+
+var vfC08Markers = []string{"", "(grpc impls)/", "(grpc client impl)/", "(grpc server impl)/"}
+
+// TestVerifC08Exec runs the in-process reference peers (connect-go and grpc-go clients and servers) over a small gRPC
+// suite with --run / --skip patterns derived from the permutation names, marker components included. The outcome map
+// must have exactly the names the reference matcher selects.
+func TestVerifC08Exec(t *testing.T) {
+	verifkit.Run(t, "C08Exec", verifkit.Spec[vfC08ExecCase]{
+		Gen: func(t *rapid.T) vfC08ExecCase {
+			var c vfC08ExecCase
+			c.Tests = rapid.SampledFrom([][]string{{"a"}, {"a", "b"}, {"a", "b/a"}, {"unary/x", "unary/y", "z"}}).Draw(t, "tests")
+			gen := func(label string, max int) []string {
+				var out []string
+				for i, k := 0, rapid.IntRange(0, max).Draw(t, label+"-n"); i < k; i++ {
+					src := strings.Split("S/TLS:false/"+strings.TrimSuffix(rapid.SampledFrom(vfC08Markers).Draw(t, label+"-marker"), "/")+"/"+rapid.SampledFrom(c.Tests).Draw(t, label+"-src"), "/")
+					var comps []string
+					for _, sc := range src {
+						if sc == "" {
+							continue
+						}
+						switch rapid.IntRange(0, 5).Draw(t, label+"-gen") {
+						case 0:
+							comps = append(comps, "*")
+						case 1:
+							comps = append(comps, "**")
+						default:
+							comps = append(comps, sc)
+						}
+					}
+					out = append(out, strings.Join(comps, "/"))
+				}
+				return out
+			}
+			c.Run = gen("run", 2)
+			c.Skip = gen("skip", 2)
+			return c
+		},
+		Check: func(c vfC08ExecCase) error {
+			suite := &conformancev1.TestSuite{
+				Name:                 "S",
+				RelevantProtocols:    []conformancev1.Protocol{conformancev1.Protocol_PROTOCOL_GRPC},
+				RelevantHttpVersions: []conformancev1.HTTPVersion{conformancev1.HTTPVersion_HTTP_VERSION_2},
+				RelevantCodecs:       []conformancev1.Codec{conformancev1.Codec_CODEC_PROTO},
+				RelevantCompressions: []conformancev1.Compression{conformancev1.Compression_COMPRESSION_IDENTITY},
+			}
+			for _, n := range c.Tests {
+				msg, err := anypb.New(&conformancev1.UnaryRequest{ResponseDefinition: &conformancev1.UnaryResponseDefinition{
+					Response: &conformancev1.UnaryResponseDefinition_ResponseData{ResponseData: []byte("ok")}}})
+				if err != nil {
+					return nil
+				}
+				suite.TestCases = append(suite.TestCases, &conformancev1.TestCase{Request: &conformancev1.ClientCompatRequest{
+					TestName: n, StreamType: conformancev1.StreamType_STREAM_TYPE_UNARY, RequestMessages: []*anypb.Any{msg}}})
+			}
+			configCases := []configCase{{Version: conformancev1.HTTPVersion_HTTP_VERSION_2, Protocol: conformancev1.Protocol_PROTOCOL_GRPC,
+				Codec: conformancev1.Codec_CODEC_PROTO, Compression: conformancev1.Compression_COMPRESSION_IDENTITY, StreamType: conformancev1.StreamType_STREAM_TYPE_UNARY}}
+			var names []string
+			for _, n := range c.Tests {
+				for _, m := range vfC08Markers {
+					names = append(names, "S/TLS:false/"+m+n)
+				}
+			}
+			matches := func(pats []string, name string) bool {
+				for _, p := range pats {
+					if vfRefGlobStr(p, name) {
+						return true
+					}
+				}
+				return false
+			}
+			for _, p := range append(append([]string{}, c.Run...), c.Skip...) {
+				used := false
+				for _, n := range names {
+					if vfRefGlobStr(p, n) {
+						used = true
+					}
+				}
+				if !used {
+					return nil // rejected before anything runs (C08Run)
+				}
+			}
+			var want []string
+			for _, n := range names {
+				if (len(c.Run) == 0 || matches(c.Run, n)) && !matches(c.Skip, n) {
+					want = append(want, n)
+				}
+			}
+			results, err := run(configCases, &testTrie{}, &testTrie{}, parsePatterns(c.Run), parsePatterns(c.Skip),
+				map[string]*conformancev1.TestSuite{"s.yaml": suite}, vfNullPrinter{}, vfNullPrinter{}, &Flags{MaxServers: 2, Parallelism: 4, ServerBind: "127.0.0.1"})
+			if len(want) == 0 {
+				return nil // (nothing selected: how that is reported is not what this unit is about)
+			}
+			if err != nil {
+				if strings.Contains(err.Error(), "unmatched and possibly invalid") {
+					return nil // a pattern shadowed by another one (documented gap of the unmatched-pattern report)
+				}
+				return verifkit.Violf("exec-run-error", "run() failed: %v (run %q skip %q tests %q)", err, c.Run, c.Skip, c.Tests)
+			}
+			var got []string
+			for n := range results.outcomes {
+				got = append(got, n)
+			}
+			sort.Strings(got)
+			sort.Strings(want)
+			if strings.Join(got, "\n") != strings.Join(want, "\n") {
+				return verifkit.Violf("exec-wrong-set", "--run %q --skip %q over %q: cases with an outcome\n  %q\nselected by the patterns\n  %q", c.Run, c.Skip, names, got, want)
+			}
+			return nil
+		},
+		Classify: func(c vfC08ExecCase) ([]string, bool) {
+			marker := false
+			for _, p := range append(append([]string{}, c.Run...), c.Skip...) {
+				if strings.Contains(p, "(grpc") {
+					marker = true
+				}
+			}
+			var cl []string
+			if marker {
+				cl = append(cl, "pattern-names-grpc-marker")
+			}
+			if len(c.Run) > 0 {
+				cl = append(cl, "run")
+			}
+			if len(c.Skip) > 0 {
+				cl = append(cl, "skip")
+			}
+			return cl, marker
 		},
 	})
 }
